@@ -91,8 +91,14 @@ func sessionC20(r *vk.Run, rng *rand.Rand, wkr, idx int) {
 	os.WriteFile(origPath, []byte(joinLines(lines)), 0o644)
 	defer os.Remove(origPath)
 	multi := rng.Intn(2) == 0
+	// (with the exec form no shell keeps the output pipe open on behalf of the command: a command that
+	// closes its own stdout and stderr reaches EOF while it is still running)
+	execForm := rng.Intn(2) == 0
 	tmpl := func(tag string) string {
 		t := "sh " + shq(script) + " " + tag + " {n} {q} {}"
+		if execForm {
+			t = "exec " + t
+		}
 		if multi {
 			t += " {+}"
 		}
@@ -144,6 +150,17 @@ func sessionC20(r *vk.Run, rng *rand.Rand, wkr, idx int) {
 	sampleAlive := func(when string) bool {
 		g := previewGroups(s)
 		r.Count("alive_samples", 1)
+		if len(g) > 1 {
+			// a killed group stays in the process table until the kernel has torn it down: only groups
+			// that are still there a moment later were alive side by side
+			time.Sleep(40 * time.Millisecond)
+			g2 := previewGroups(s)
+			for pg := range g {
+				if _, still := g2[pg]; !still {
+					delete(g, pg)
+				}
+			}
+		}
 		if len(g) > 1 {
 			fail("", fmt.Sprintf("%d preview commands alive at once (%s)", len(g), when), map[string]any{"process_groups": g})
 			return false
